@@ -22,8 +22,9 @@ import (
 type Use struct {
 	Role  string // "file-key", "nonce", "x25519-ephemeral#k", "scrypt-salt#k", "ed25519-ephemeral#k", "oaep-seed#k"
 	Value []byte
-	Start int // offset in the concatenated tape of the call
+	Start int // offset in the concatenated tape of the draws given to Explain
 	Draw  int // sequence number of the draw holding the first byte
+	Off   int // offset of the first byte inside that draw
 	Whole bool
 }
 
@@ -66,13 +67,13 @@ func (m *matcher) free(a, b int) bool {
 	return true
 }
 
-func (m *matcher) drawAt(off int) (int, bool) {
+func (m *matcher) drawAt(off int) (seq, inner int) {
 	for i := len(m.start) - 1; i >= 0; i-- {
 		if m.start[i] <= off {
-			return m.draws[i].Seq, m.start[i] == off
+			return m.draws[i].Seq, off - m.start[i]
 		}
 	}
-	return -1, false
+	return -1, 0
 }
 
 // find locates an unused range of n bytes satisfying pred, preferring whole
@@ -84,11 +85,13 @@ func (m *matcher) find(role string, n int, pred func([]byte) bool) (Use, bool) {
 			return Use{Role: role, Value: d.Bytes, Start: m.start[i], Draw: d.Seq, Whole: true}, true
 		}
 	}
-	for off := 0; off+n <= len(m.cat); off++ {
+	// newest first: an implementation that prefetches hands out the most
+	// recently drawn bytes
+	for off := len(m.cat) - n; off >= 0; off-- {
 		if m.free(off, off+n) && pred(m.cat[off:off+n]) {
 			m.used = append(m.used, span{off, off + n})
-			seq, _ := m.drawAt(off)
-			return Use{Role: role, Value: m.cat[off : off+n], Start: off, Draw: seq}, true
+			seq, inner := m.drawAt(off)
+			return Use{Role: role, Value: m.cat[off : off+n], Start: off, Draw: seq, Off: inner}, true
 		}
 	}
 	return Use{}, false
